@@ -173,7 +173,8 @@ PROPS = {
         "coq": ["Props/C06.v"],
         "level": "proof",
         "harness": ["gwrun", "purediff"],
-        "stages": [("subfsm", stage_pure, {"suites": ["subfsm"], "n_quick": 4000, "n_thorough": 80000, "widen": 1}),
+        "stages": [("core", stage_core, {"n_quick": 1500, "n_thorough": 20000}),
+                   ("subfsm", stage_pure, {"suites": ["subfsm"], "n_quick": 4000, "n_thorough": 80000, "widen": 1}),
                    ("gw", stage_gw, {"profiles": [("access", 600, 6000), ("scacc", 500, 4000), ("reset", 300, 3000), ("accrefs", 300, 3000)]})],
         "rule": "as C04 with token events on connections with and without a token, reaccess events, system resets with access patterns, triggers injected "
                 "while loading, while events are queued and while an earlier check is pending; monitor: every trigger is followed (by the next quiescent "
